@@ -2,7 +2,8 @@
 """Negative controls: behaviour-preserving rewrites of the whole tree on which every check must stay silent.
   reformat  -- every file replaced by ast.unparse(ast.parse(src)) (comments, layout, quoting, number spelling gone)
   rename    -- every renamable function local x renamed to x_r (about 1300 names)
-usage: selftest/benign.py [reformat|rename|all]   -> exit 0 if all 20 quick checks exit 0 on each rewritten tree"""
+  logging   -- a `logging.debug("enter")` statement inserted at the top of every function (about 950)
+usage: selftest/benign.py [reformat|rename|logging|all]   -> exit 0 if all 20 quick checks exit 0 on each rewritten tree"""
 import ast, os, shutil, subprocess, sys, tempfile
 HERE = os.path.dirname(os.path.dirname(os.path.abspath(__file__)))
 sys.path.insert(0, HERE)
@@ -19,6 +20,17 @@ def rewrite(root, how):
                     continue
                 p = os.path.join(dp, f)
                 t = ast.parse(open(p, encoding="utf-8").read())
+                if how == "logging":
+                    for fn in [x for x in ast.walk(t) if isinstance(x, (ast.FunctionDef, ast.AsyncFunctionDef))]:
+                        i = 1 if (fn.body and isinstance(fn.body[0], ast.Expr) and isinstance(fn.body[0].value, ast.Constant) and isinstance(fn.body[0].value.value, str)) else 0
+                        fn.body.insert(i, ast.parse("logging.debug('enter')").body[0])
+                        n += 1
+                    j = 0
+                    while j < len(t.body) and (isinstance(t.body[j], ast.ImportFrom) and t.body[j].module == "__future__" or
+                                               (isinstance(t.body[j], ast.Expr) and isinstance(t.body[j].value, ast.Constant))):
+                        j += 1
+                    t.body.insert(j, ast.parse("import logging").body[0])
+                    ast.fix_missing_locations(t)
                 if how == "rename":
                     for key, fn in alpha.function_index(t):
                         names = alpha.local_order(fn)
@@ -35,7 +47,7 @@ def rewrite(root, how):
 def main(argv):
     which = argv[0] if argv else "all"
     worst = 0
-    for how in (["reformat", "rename"] if which == "all" else [which]):
+    for how in (["reformat", "rename", "logging"] if which == "all" else [which]):
         tmp = tempfile.mkdtemp(prefix="pv-benign-")
         try:
             for pkg in ("passlib", "libpass"):
